@@ -27,7 +27,9 @@ func runC12(r *Run, verifDir string) {
 	// premise of the table-based discharges of A1: a decoded standard attribute always carries its typed value
 	attrDecoderSetsValue(r, "C12.A1")
 	c12A2(r)
+	c12A2Cross(r)
 	c12A3(r)
+	c12A3Negotiate(r)
 	c12A4(r)
 }
 
@@ -992,5 +994,170 @@ func c13N8(r *Run) {
 	}
 	if n == 0 {
 		r.Unk("C13.N8", "kmipclient/default-versions", token.NoPos, "no use of the default version list found")
+	}
+}
+
+// ---------------------------------------------------------------- A2 (cross-slice index), A3 (negotiation)
+
+// c12A2Cross: an index that ranges over the response's items but is applied to another slice (the request payloads)
+// needs the two lengths compared first: the server chooses how many items it returns.
+func c12A2Cross(r *Run) {
+	p := r.P
+	n := 0
+	for _, fn := range pkgFuncs(p, "kmipclient") {
+		if fn.TypeParams().Len() > 0 && len(fn.TypeArgs()) == 0 || fn.Origin() != nil {
+			continue
+		}
+		ord := 0
+		allInstrs(fn, func(in ssa.Instruction) {
+			ia, ok := in.(*ssa.IndexAddr)
+			if !ok {
+				return
+			}
+			if _, isSl := ia.X.Type().Underlying().(*types.Slice); !isSl {
+				return
+			}
+			// the index: a range-style induction variable bounded by len(other) with other a []ResponseBatchItem
+			var other ssa.Value
+			idx := ia.Index
+			if b, ok := idx.(*ssa.BinOp); ok && b.Op == token.ADD {
+				idx = b.X
+			}
+			ph, ok := idx.(*ssa.Phi)
+			if !ok {
+				return
+			}
+			for _, ref := range *ph.Referrers() {
+				chk := ref
+				if b, ok := ref.(*ssa.BinOp); ok && b.Op == token.ADD {
+					for _, r2 := range *b.Referrers() {
+						if b2, ok := r2.(*ssa.BinOp); ok && b2.Op == token.LSS {
+							chk = b2
+						}
+					}
+				}
+				if b, ok := chk.(*ssa.BinOp); ok && b.Op == token.LSS {
+					if y, isLen := lenOperand(b.Y); isLen {
+						if sl, ok := y.Type().Underlying().(*types.Slice); ok && typeName(sl.Elem()) == "ResponseBatchItem" {
+							other = y
+						}
+					} else if c, ok := b.Y.(*ssa.Call); ok {
+						_ = c
+					}
+				}
+			}
+			// go/ssa hoists len(x) of a range loop: the bound is a value computed before the loop
+			if other == nil {
+				for _, ref := range *ph.Referrers() {
+					var cmp *ssa.BinOp
+					if b, ok := ref.(*ssa.BinOp); ok && b.Op == token.ADD {
+						for _, r2 := range *b.Referrers() {
+							if b2, ok := r2.(*ssa.BinOp); ok && b2.Op == token.LSS {
+								cmp = b2
+							}
+						}
+					}
+					if cmp == nil {
+						continue
+					}
+					if c, ok := cmp.Y.(*ssa.Call); ok {
+						if y, isLen := lenOperand(c); isLen {
+							if sl, ok := y.Type().Underlying().(*types.Slice); ok && typeName(sl.Elem()) == "ResponseBatchItem" {
+								other = y
+							}
+						}
+					}
+				}
+			}
+			if other == nil || sameSlice(other, ia.X) {
+				return
+			}
+			if sl, ok := ia.X.Type().Underlying().(*types.Slice); ok && typeName(sl.Elem()) == "ResponseBatchItem" {
+				return
+			}
+			// a slice made with exactly that length
+			if mk, ok := ia.X.(*ssa.MakeSlice); ok {
+				if y, isLen := lenOperand(mk.Len); isLen && sameSlice(y, other) {
+					return
+				}
+			}
+			n++
+			ord++
+			key := fmt.Sprintf("%s/cross-index#%d", fnKey(fn), ord)
+			// a dominating comparison of the two lengths
+			okLen := false
+			for _, dc := range dominatingConds(ia.Block()) {
+				bo, ok := dc.cond.(*ssa.BinOp)
+				if !ok {
+					continue
+				}
+				a, isA := lenOperand(bo.X)
+				b, isB := lenOperand(bo.Y)
+				if !isA || !isB {
+					continue
+				}
+				pair := (sameSlice(a, other) && sameSlice(b, ia.X)) || (sameSlice(b, other) && sameSlice(a, ia.X))
+				if !pair {
+					continue
+				}
+				if (bo.Op == token.NEQ && !dc.outcome) || (bo.Op == token.EQL && dc.outcome) {
+					okLen = true
+				}
+			}
+			if okLen {
+				r.OK("C12.A2", key, ia.Pos(), "an index running over the response's items is applied to another slice only after the two lengths were compared")
+			} else {
+				r.Bad("C12.A2", key, ia.Pos(), "%s indexes a slice of its own with a position that runs over the items of the server's response before the number of items was compared with the number of payloads: a response with more items than requested panics (index out of range)", fnKey(fn))
+			}
+		})
+	}
+	_ = n
+}
+
+// c12A3Negotiate: the version negotiation adopts a version only from a discovery item whose Err() is nil (or on the
+// documented not-supported fallback): a failed discovery is surfaced with its status, reason and message.
+func c12A3Negotiate(r *Run) {
+	p := r.P
+	nv := p.Func("kmipclient", "Client", "negotiateVersion")
+	key := "kmipclient.Client.negotiateVersion/err-checked"
+	if nv == nil {
+		r.Unk("C12.A3", key, token.NoPos, "anchor missing")
+		return
+	}
+	n, bad := 0, token.NoPos
+	allInstrs(nv, func(in ssa.Instruction) {
+		st, ok := in.(*ssa.Store)
+		if !ok {
+			return
+		}
+		if _, fld, ok := fieldAddrOf(st.Addr); !ok || fname(fld) != "version" || typeName(st.Addr.(*ssa.FieldAddr).X.Type()) != "Client" {
+			return
+		}
+		n++
+		okErr, fallback := false, false
+		for _, dc := range dominatingConds(st.Block()) {
+			switch c := dc.cond.(type) {
+			case *ssa.BinOp:
+				if call, ok := c.X.(*ssa.Call); ok && isNilConst(c.Y) && callID(&call.Call).name == "Err" && typeName(call.Call.Args[0].Type()) == "ResponseBatchItem" {
+					if (c.Op == token.NEQ) != dc.outcome {
+						okErr = true
+					}
+				}
+				if typeName(c.X.Type()) == "ResultReason" && c.Op == token.EQL && dc.outcome {
+					fallback = true
+				}
+			}
+		}
+		if !okErr && !fallback {
+			bad = st.Pos()
+		}
+	})
+	switch {
+	case bad.IsValid():
+		r.Bad("C12.A3", key, bad, "negotiateVersion adopts a version from the discovery item without having found its Err() nil: a server that fails discovery with any status other than the not-supported fallback is treated as having answered (its status, reason and message are lost, or Dial succeeds on a refused exchange)")
+	case n == 0:
+		r.Unk("C12.A3", key, nv.Pos(), "no assignment of Client.version found")
+	default:
+		r.OK("C12.A3", key, nv.Pos(), "%d assignment(s) of the adopted version, each under Err() == nil or on the not-supported fallback", n)
 	}
 }
